@@ -93,6 +93,9 @@ type config struct {
 	Mode  string `json:"decide_mode"`
 	Kinds []int  `json:"-"`
 	Cap   int    `json:"state_cap"`
+	// Faulty, when set, restricts the members that may deviate to this set (all its subsets of
+	// size <= f are explored); empty = any member may deviate (all subsets of the committee).
+	Faulty []int `json:"faulty_candidates,omitempty"`
 }
 
 func (c config) f() int { return (c.N - 1) / 3 }
@@ -102,7 +105,11 @@ func (c config) String() string {
 	for _, k := range c.Kinds {
 		ks = append(ks, kindNames[k])
 	}
-	return fmt.Sprintf("role=%s n=%d f=%d prefix=%s bad-kinds=[%s]", c.Role, c.N, c.f(), c.Mode, strings.Join(ks, ","))
+	fs := "any member"
+	if len(c.Faulty) > 0 {
+		fs = fmt.Sprintf("members %v", c.Faulty)
+	}
+	return fmt.Sprintf("role=%s n=%d f=%d prefix=%s faulty-candidates=%s bad-kinds=[%s]", c.Role, c.N, c.f(), c.Mode, fs, strings.Join(ks, ","))
 }
 
 // ---- explorer ----
@@ -267,7 +274,7 @@ func (x *explorer) menu(h hstate) []event {
 		if c >= 2 {
 			continue
 		}
-		mayDeviate := h.deviated(i) || ndev < x.cfg.f()
+		mayDeviate := x.candidate(i) && (h.deviated(i) || ndev < x.cfg.f())
 		if c == 0 || mayDeviate {
 			out = append(out, event{member: uint8(i), kind: kGood, mask: 1})
 		}
@@ -285,6 +292,18 @@ func (x *explorer) menu(h hstate) []event {
 		}
 	}
 	return out
+}
+
+func (x *explorer) candidate(i int) bool {
+	if len(x.cfg.Faulty) == 0 {
+		return true
+	}
+	for _, m := range x.cfg.Faulty {
+		if m == i {
+			return true
+		}
+	}
+	return false
 }
 
 func logDigest(log []run5.Submission) [32]byte {
@@ -598,8 +617,13 @@ func main() {
 		for _, role := range []string{run5.Attester, run5.Proposer, run5.VoluntaryExit, run5.Registration} {
 			cfgs = append(cfgs, config{Role: role, N: 7, Mode: run5.ByMessages, Kinds: base})
 		}
-		cfgs = append(cfgs, config{Role: run5.Attester, N: 10, Mode: run5.ByDecided, Kinds: reduced, Cap: 400000})
-		cfgs = append(cfgs, config{Role: run5.Attester, N: 13, Mode: run5.ByDecided, Kinds: reduced, Cap: 300000})
+		// n=10, 13: the full product over all faulty subsets is 3*10^6 states at n=10 already; explored instead:
+		// two fixed maximal faulty sets (one containing the runner's own operator id, one not) with all their
+		// subsets, mutation kinds reduced to the two that are stored in the container, and a state cap.
+		cfgs = append(cfgs, config{Role: run5.Attester, N: 10, Mode: run5.ByDecided, Kinds: reduced, Cap: 400000, Faulty: []int{8, 9, 10}})
+		cfgs = append(cfgs, config{Role: run5.Attester, N: 10, Mode: run5.ByDecided, Kinds: reduced, Cap: 400000, Faulty: []int{1, 2, 3}})
+		cfgs = append(cfgs, config{Role: run5.Attester, N: 13, Mode: run5.ByDecided, Kinds: reduced, Cap: 400000, Faulty: []int{10, 11, 12, 13}})
+		cfgs = append(cfgs, config{Role: run5.Attester, N: 13, Mode: run5.ByDecided, Kinds: reduced, Cap: 400000, Faulty: []int{1, 2, 3, 4}})
 	}
 	if only := envOr("C05_ONLY", ""); only != "" { // development aid: C05_ONLY=role:n
 		var keep []config
@@ -629,8 +653,12 @@ func main() {
 			outcomes[k] += v
 		}
 		wantSets := 0
-		for k := 0; k <= c.f(); k++ {
-			wantSets += binom(c.N, k)
+		pool := c.N
+		if len(c.Faulty) > 0 {
+			pool = len(c.Faulty)
+		}
+		for k := 0; k <= c.f() && k <= pool; k++ {
+			wantSets += binom(pool, k)
 		}
 		bounds = append(bounds, map[string]interface{}{
 			"config": c.String(), "objects": len(x.tmpl.Objects), "states": st.States, "transitions": st.Transitions, "depth": st.Depth,
